@@ -415,9 +415,11 @@ func Dump(e *Expr) string {
 		return
 	}
 
-	var helper func(int16) (string, bool)
+	var helper func(int16, string) (string, bool)
 
-	helper = func(idx int16) (string, bool) {
+	// indent is written after every line break the helper adds,
+	// line breaks inside string literals are left untouched
+	helper = func(idx int16, indent string) (string, bool) {
 		n := e.nodes[idx]
 		if n.childCnt == 0 {
 			return dumpLeafNode(n)
@@ -427,17 +429,16 @@ func Dump(e *Expr) string {
 		sb.WriteString(fmt.Sprintf("(%v", n.value))
 
 		childIdxes := getChildIdxes(idx)
+		childIndent := indent + "  "
 
 		for _, cIdx := range childIdxes {
-			cc, isLeaf := helper(cIdx)
+			cc, isLeaf := helper(cIdx, childIndent)
 			if isLeaf {
 				sb.WriteString(fmt.Sprintf(" %s", cc))
 				continue
 			}
 
-			for _, cs := range strings.Split(cc, "\n") {
-				sb.WriteString(fmt.Sprintf("\n  %s", cs))
-			}
+			sb.WriteString(fmt.Sprintf("\n%s%s", childIndent, cc))
 		}
 		sb.WriteString(")")
 		return sb.String(), false
@@ -450,7 +451,7 @@ func Dump(e *Expr) string {
 		}
 	}
 
-	res, _ := helper(rootIdx)
+	res, _ := helper(rootIdx, "")
 	return res
 }
 
@@ -467,7 +468,7 @@ func dumpLeafNode(node *node) (string, bool) {
 	var res string
 	switch v := node.value.(type) {
 	case string:
-		res = strconv.Quote(v)
+		res = quoteStr(v)
 	case []string:
 		var sb strings.Builder
 		sb.WriteRune('(')
@@ -475,7 +476,7 @@ func dumpLeafNode(node *node) (string, bool) {
 			if idx != 0 {
 				sb.WriteRune(' ')
 			}
-			sb.WriteString(strconv.Quote(s))
+			sb.WriteString(quoteStr(s))
 		}
 		sb.WriteRune(')')
 		res = sb.String()
@@ -494,6 +495,12 @@ func dumpLeafNode(node *node) (string, bool) {
 		res = fmt.Sprint(v)
 	}
 	return res, true
+}
+
+// quoteStr prints a string literal the way the lexer reads it:
+// the raw text between double quotes, there are no escape sequences
+func quoteStr(s string) string {
+	return `"` + s + `"`
 }
 
 func max(a, b int) int {
